@@ -418,7 +418,17 @@ func (x *Exec) store(st *State, p *Pointer, v *Value) {
 		return
 	}
 	if p.Abs {
+		if p.AbsLoc != nil && v.K == KLeaf {
+			// element store into a byte array held in a variable: functional update of its content id
+			cur := x.load(st, p.AbsLoc, p.GhostT)
+			nid := fmt.Sprintf("(bupd %s %s %s)", cur.Term, p.Idx, v.Term)
+			st.assume(fmt.Sprintf("(= (blen %s) (blen %s))", nid, cur.Term))
+			st.assume(fmt.Sprintf("(= (bat %s %s) %s)", nid, p.Idx, v.Term))
+			x.store(st, p.AbsLoc, leaf(p.GhostT, nid))
+			return
+		}
 		st.notes = append(st.notes, "unsupported: store into abstract byte string")
+		x.note("store into an abstract byte string (path abandoned)")
 		st.dead = true
 		return
 	}
@@ -511,6 +521,9 @@ func (x *Exec) zeroValue(st *State, t types.Type) *Value {
 		if l.Sort == "Bool" {
 			return "false"
 		}
+		if l.T != nil && isByteArray(l.T) {
+			return fmt.Sprintf("(bzero %d)", l.T.Underlying().(*types.Array).Len())
+		}
 		return "0"
 	})
 }
@@ -550,11 +563,8 @@ func (x *Exec) markAllocated(st *State, ref string) {
 	if ref == "0" {
 		return
 	}
-	x.nfresh++
-	na := fmt.Sprintf("alloc!%d", x.nfresh)
-	st.decls = append(st.decls, fmt.Sprintf("(declare-const %s (Array Int Bool))", na))
-	st.assume(fmt.Sprintf("(= %s (store %s %s true))", na, st.allocT, ref))
-	st.allocT = na
+	// the reference exists now: it belongs to the (abstract) set of allocated objects of this moment
+	st.assume(fmt.Sprintf("(or (= %s 0) (select %s %s))", ref, st.allocT, ref))
 }
 
 func (x *Exec) markValueAllocated(st *State, v *Value) {
